@@ -263,6 +263,15 @@ def judge_single(call, chk, probe=None):
     for i, r in enumerate(evals[: E['npass']]):
         chk('passes/iteration-keyword', r['iteration'] == i + 1, {'pass': i + 1, 'got': r['iteration']})
 
+    if not call.get('scripted'):
+        # equations built by the parser from a script within the documented syntax fault arithmetically (a warning turned
+        # into an error, a division by zero, an overflow) - a TypeError, NameError or the like out of the generated code
+        # is not a numerical fault of the model
+        arithmetic = {None, 'RuntimeWarning', 'FloatingPointError', 'ZeroDivisionError', 'OverflowError', 'SimInterrupt'}
+        if call.get('shorter_than_script'):
+            arithmetic.add('IndexError')  # (lag / lead lengths imposed below what the script reads: running off the span is the caller's doing)
+        for r in evals:
+            chk('pass/generated-code-raised-a-non-arithmetic-exception', r['exc'] in arithmetic, {'exc': r['exc'], 'iteration': r['iteration']})
     if call.get('scripted'):
         # actions that only write finite numbers can never be the source of an exception
         ambient = call.get('np_err', 'default')
